@@ -1,145 +1,12 @@
 """C01 collision protection: theorems in props/C01.v; exhaustive adoption table through the real
 PhaseReconciler.ReconcilePhase + random multi-object phases with third-party interference."""
-import itertools, json
-import vlib, phaselib as pl
-
-IMPORTS = "From PKO Require Import Base Owner Api Phase.\nFrom PKOCorr Require Import PhaseCorr C01Corr."
-
-
-def table(tier):
-    """Exhaustive abstract adoption table, one pre-existing object, one phase object."""
-    out = []
-    for flavor, okind in (("objectset", 1), ("objectset", 2), ("multiphase", 3), ("samephase", 3)):
-        annot = pl.is_annot(flavor)
-        ons = 0 if okind in (2, 4) else 1
-        for already, revrel, cp, ctrl, force, pko, cache in itertools.product(
-                (False, True), ("none", "bad", "lt", "eq", "gt"), (0, 1, 2),
-                ("none", "foreign", "prev", "prevremote", "prevnoctrl"), (False, True), (False, True), (True, False)):
-            if tier == "quick" and (not cache) and (force or pko):
-                continue  # cache=false only changes the read path; keep it for the unforced rows in quick
-            owner = pl.mk_owner(okind, ons, 10, 100, 5)
-            prevkind = 2 if okind == 2 else 1
-            prev = [{"kind": prevkind, "ns": ons, "name": 9, "uid": 90, "remotes": [[19, 190]]},
-                    {"kind": prevkind, "ns": ons, "name": 8, "uid": 80, "remotes": []}]
-            refs = []
-            if ctrl == "foreign":
-                refs.append([9, 50, 500, 1])
-            elif ctrl == "prev":
-                refs.append([prevkind, 9, 90, 1])
-            elif ctrl == "prevremote":
-                refs.append([4 if prevkind == 2 else 3, 19, 190, 1])
-            elif ctrl == "prevnoctrl":
-                refs.append([prevkind, 9, 90, 0])
-            if already:
-                if ctrl in ("foreign", "prev", "prevremote"):
-                    continue  # two controllers: not a state the API server admits
-                refs.append([okind, 10, 100, 1])
-            rev = {"none": None, "bad": "bad", "lt": 4, "eq": 5, "gt": 6}[revrel]
-            o = pl.mk_obj(1, 1, 1, 7, 3, rev=rev, cache=cache, pkg=1 if pko else 0, body=2)
-            o["aowners" if annot else "owners"] = refs
-            out.append({"flavor": flavor, "force": force, "owner": owner, "prev": prev, "store": [o],
-                        "next_rv": 50, "next_uid": 60, "op": "reconcile",
-                        "objects": [pl.mk_pobj(1, 1 if ons == 0 else 0, 1, body=3, cp=cp)]})
-    return out
-
-
-def random_phases(seed, n):
-    r = vlib.rng(seed, "C01")
-    out = []
-    for _ in range(n):
-        flavor = r.choice(["objectset", "objectset", "samephase", "multiphase", "sameclusterphase", "multiclusterphase"])
-        okind = r.choice(pl.flavor_owner_kind(flavor))
-        ons = 0 if okind in (2, 4) else 1
-        annot = pl.is_annot(flavor)
-        orev = r.choice([1, 2, 3, 5])
-        owner = pl.mk_owner(okind, ons, 10, 100, orev, paused=r.random() < 0.05, pkg=r.choice([0, 0, 1, 2]))
-        prevkind = 2 if okind in (2, 4) else 1
-        prev = [{"kind": prevkind, "ns": ons, "name": 9, "uid": 90, "remotes": r.choice([[], [[19, 190]]])}] if r.random() < 0.8 else []
-        nobj = r.choice([1, 2, 2, 3, 4])
-        store, objects = [], []
-        uid = 7
-        for i in range(1, nobj + 1):
-            gk = r.choice([1, 1, 2])
-            present = r.random() < 0.75
-            if present:
-                refs = r.choice([[], [[9, 50, 500, 1]], [[prevkind, 9, 90, 1]], [[prevkind, 9, 90, 0]], [[okind, 10, 100, 1]],
-                                 [[prevkind, 9, 90, 0], [okind, 10, 100, 1]], [[okind, 10, 100, 0]],
-                                 [[4 if prevkind == 2 else 3, 19, 190, 1]], [[okind, 10, 101, 1]]])
-                o = pl.mk_obj(gk, 1, i, uid, uid + 1, rev=r.choice([None, 1, 2, 3, 5, 7, "bad"]) if r.random() < 0.9 else None,
-                              cache=r.random() < 0.8, pkg=r.choice([0, 0, 0, 1]), body=r.choice([1, 2]),
-                              avail=r.choice([0, 1, 1, 2]), obsgen=r.choice([None, None, 1, 2]), fin=r.random() < 0.1)
-                o["aowners" if annot else "owners"] = refs
-                store.append(o)
-                uid += 2
-            objects.append(pl.mk_pobj(gk, r.choice([0, 1]) if ons else 1, i, body=r.choice([1, 2]), cp=r.choice([0, 0, 1, 2])))
-        sc = {"flavor": flavor, "force": r.random() < 0.1, "owner": owner, "prev": prev, "store": store,
-              "next_rv": 50, "next_uid": 60, "op": "reconcile", "objects": objects}
-        if r.random() < 0.25 and store:
-            v = dict(r.choice(store))
-            v = json.loads(json.dumps(v))
-            v["rv"] = 40
-            ch = r.choice(["reown", "relabel", "delete", "recreate"])
-            if ch == "reown":
-                v["aowners" if annot else "owners"] = [[9, 51, 501, 1]]
-            elif ch == "relabel":
-                v["pkg"] = 1 - min(v["pkg"], 1)
-            elif ch == "recreate":
-                v["uid"] = 41
-                v["owners"], v["aowners"] = [], []
-            sc["between"] = [{"op": "delete", "key": {"gk": v["gk"], "ns": v["ns"], "name": v["name"]}}] if ch == "delete" else [{"op": "put", "obj": v}]
-        out.append(sc)
-    return out
-
-
-def run_cases(run, scs, judge, arity, mode="phase"):
-    """Runs scenarios, returns list of (scenario, obs, result tuple | None)."""
-    outs = vlib.run_harness(mode, scs)
-    terms, idx = [], []
-    for i, (sc, o) in enumerate(zip(scs, outs)):
-        if "obs" not in o:
-            run.violation("corr:%s/harness error or panic" % run.pid, {"correspondence": "harness", "scenario": sc, "out": o}, False)
-            continue
-        try:
-            terms.append(pl.c_case(sc, o["obs"]))
-            idx.append(i)
-        except pl.Unrepresentable as e:
-            run.violation("corr:%s/observation outside the model's event language: %s" % (run.pid, e),
-                          {"correspondence": "PhaseCorr event language", "scenario": sc, "impl": o["obs"]}, False)
-    res, logs = vlib.judge_cases(run.pid, IMPORTS, judge, terms, arity)
-    for l in logs:
-        run.violation("corr:%s/coq-eval" % run.pid, {"correspondence": "coq evaluation failed", "log": l}, False)
-    return [(scs[i], outs[i]["obs"], r) for i, r in zip(idx, res)]
+import phasecheck as pc
 
 
 def check(run, tier, seed, replay=None):
-    run.assumptions += [
-        "pass-level atomicity with cache reads as fresh as the store, except for the scripted third-party op placed between read and write",
-        "API-server semantics of coq/theories/Api.v as implemented by the harness's recording server",
-    ]
-    vlib.std_proof_stage(run, "C01")
-    ok, blog = vlib.build_harness()
-    if not ok:
-        run.violation("corr:harness-build", {"correspondence": "harness no longer builds against the tree", "log": blog[-4000:]}, False)
-        return
-    if replay:
-        scs = [json.load(open(replay))["replay"]["scenario"]]
-    else:
-        scs = table(tier) + random_phases(seed, 300 if tier == "quick" else 6000)
-    results = run_cases(run, scs, "C01Corr.judge", 2)
-    run.cov["evaluations"] = len(results)
-    for sc, obs, r in results:
-        if r is None:
-            continue
-        agree, mon = r
-        run.classes.add((sc["flavor"], obs["res"], obs.get("err"), tuple(e["verb"] for e in obs["events"])))
-        if not mon:
-            run.violation("C01 write/ownership change on an object without permitted adoption, or missing adoption / report",
-                          {"scenario": sc, "impl": obs}, True)
-        elif not agree:
-            run.violation("corr:C01/phase model and implementation differ",
-                          {"correspondence": "PhaseCorr.agree", "scenario": sc, "impl": obs}, False)
-    run.cov["exhaustive"] = False
-    run.cov["rule"] = ("exhaustive abstract adoption table (strategy x already-controller x revision relation x collisionProtection x "
-                       "controller state x force x pko-label x cache-visibility) through the real ReconcilePhase, plus seeded random "
-                       "multi-object phases with a third-party op between read and write; distinct = (flavor, outcome, error class, write verbs)")
-    run.cov["samples"] = [{"scenario": s, "impl": {k: o[k] for k in ("res", "err", "events") if k in o}} for s, o, _ in results[:2]]
+    scs = pc.table(tier) + pc.random_phases(seed, 300 if tier == "quick" else 6000) + pc.random_teardowns(seed, 100 if tier == "quick" else 1500)
+    pc.phase_check(run, "C01", tier, seed, replay, scs, "C01Corr.judge",
+                   lambda sc, obs: "C01 write or ownership change without permitted adoption, or adoption/refusal not carried out",
+                   "exhaustive abstract adoption table (strategy x already-controller x revision relation x collisionProtection x "
+                   "controller state x force x pko-label x cache visibility) through the real ReconcilePhase, plus seeded random "
+                   "multi-object phases and teardowns with a third-party op between read and write")
